@@ -29,6 +29,7 @@ import XotModel.Lemmas.ArenaSim
 import XotModel.Lemmas.ArenaRemoveRoot
 import XotModel.Lemmas.FpxRefineMain
 import XotModel.Lemmas.FpxRefineDedupLoop
+import XotModel.Lemmas.FhistMono
 
 namespace XotModel.Props
 open XotModel
@@ -1408,5 +1409,136 @@ example : (Axes.Trav.precedingSiblings.result gapForest.roots.head!.erase [1]).m
     (Axes.Trav.traverse.result gapForest.roots.head!.erase []).map
       (HTree.handleAt gapForest.roots.head!) = [some 0, some 1, some 1, some 2, some 2, some 3, some 3, some 0] := by
   decide
+
+end XotModel.Props
+
+/-! # ================================================================================================
+    # EXTENDED HISTORIES (branch wt-hist): the composite calls as steps of the histories
+    # ================================================================================================
+
+  `Forest.XCall` (Model/FhistSpec.lean) wraps the step type `Forest.HStep` — every call of `Forest.Call`,
+  node creation, `set_text_consolidation`, `remove_insignificant_whitespace`; every `Op` is an `XCall`
+  through `XCall.ofOp` — and adds the composite public calls that are constructors of none of the older
+  history types:
+
+    .createMissingPrefixes node        `create_missing_prefixes`   (`Forest.createMissingPrefixes`)
+    .deduplicateNamespaces node        `deduplicate_namespaces`    (`Forest.deduplicateNamespaces`)
+    .cloneWithPrefixes node order      `clone_with_prefixes`       (`Forest.cloneWithPrefixes`; `order` = the
+                                       iteration order of the hash map `inherited_prefixes(node)`, ANY list)
+
+  A history runs on a `Store` = forest + interning tables (`create_missing_prefixes` extends the tables
+  by the prefixes it invents; it and `deduplicate_namespaces` read them): `XCall.run`, `Store.xstep`,
+  `Store.xrun`.  The one side condition is the one of `C04_call_inv`: a map insertion given as DATA
+  carries an entry of the map's kind (`XCall.wellKinded`, decidable, a condition on the call alone; the
+  Rust API builds the entry from key and value, and every `Op` qualifies: `C04_ext_ofOp_wellKinded`).
+  Arguments are arbitrary numbers, outcomes are whatever the calls answer (`ok`, `err`, `panic`). -/
+
+namespace XotModel.Props
+open XotModel
+
+/-- `clone_with_prefixes(node)` preserves the invariant: for every node argument (live or not), every
+    iteration order of the inherited prefixes (any list), every outcome. -/
+theorem C04_step_cloneWithPrefixes (f : Forest) (hi : f.Inv) (node : Nat) (order : List (Nat × Nat)) :
+    (f.cloneWithPrefixes node order).1.Inv := Forest.cloneWithPrefixes_inv hi node order
+
+/-- ⟦C04_step_ext⟧ One extended call preserves the invariant, whatever its arguments and outcome. -/
+theorem C04_step_ext (s : Store) (c : Forest.XCall) (hi : s.forest.Inv) (hw : c.wellKinded) :
+    (s.xstep c).forest.Inv := Store.xstep_inv hi c hw
+
+/-- Every extended history from ANY store whose forest has the invariant ends in one. -/
+theorem C04_reach_ext_from (s : Store) (hi : s.forest.Inv) (cs : List Forest.XCall)
+    (hw : ∀ c ∈ cs, c.wellKinded) : (s.xrun cs).forest.Inv := Store.xrun_inv cs hi hw
+
+/-- ⟦C04_reach_ext⟧ **Every forest reachable from the empty store by any history of extended calls** —
+    the calls of `Forest.Call`, node creation, set_text_consolidation, remove_insignificant_whitespace,
+    create_missing_prefixes, deduplicate_namespaces, clone_with_prefixes, in any order, with arbitrary
+    arguments (live, removed or never created), for every vocabulary `env` the store starts with and
+    whatever the calls answer — **satisfies the invariant**. -/
+theorem C04_reach_ext (env : Env) (cs : List Forest.XCall) (hw : ∀ c ∈ cs, c.wellKinded) :
+    ((⟨Forest.init, env⟩ : Store).xrun cs).forest.Inv :=
+  Store.xrun_inv cs ((Forest.inv_iff _).mp C04_init) hw
+
+theorem C04_reach_ext_bool (env : Env) (cs : List Forest.XCall) (hw : ∀ c ∈ cs, c.wellKinded) :
+    ((⟨Forest.init, env⟩ : Store).xrun cs).forest.inv = true :=
+  (Forest.inv_iff _).mpr (C04_reach_ext env cs hw)
+
+/-- … so the invariant holds at EVERY point of time of an extended history (every prefix of a
+    history is a history). -/
+theorem C04_reach_ext_prefix (env : Env) (pre post : List Forest.XCall)
+    (hw : ∀ c ∈ pre ++ post, c.wellKinded) :
+    ((⟨Forest.init, env⟩ : Store).xrun pre).forest.Inv ∧
+    ((⟨Forest.init, env⟩ : Store).xrun (pre ++ post)).forest.Inv :=
+  ⟨C04_reach_ext env pre (fun c h => hw c (List.mem_append_left _ h)), C04_reach_ext env _ hw⟩
+
+/-- The older history types are sub-languages: every `Op` is a well-kinded extended call, running its
+    image is `Forest.step` (the interning tables are not touched), and a history of `Op`s run as an
+    extended history is `Forest.run` — `C04_reach_all` is `C04_reach_ext` on such histories. -/
+theorem C04_ext_ofOp_wellKinded (o : Op) : (Forest.XCall.ofOp o).wellKinded := Store.ofOp_wellKinded o
+
+theorem C04_ext_run_ofOp (s : Store) (ops : List Op) :
+    s.xrun (ops.map Forest.XCall.ofOp) = ⟨s.forest.run ops, s.env⟩ := Store.xrun_ofOp ops s
+
+theorem C04_ext_run_ofStep (s : Store) (ss : List Forest.HStep) :
+    s.xrun (ss.map Forest.XCall.ofStep) = ⟨s.forest.runAll ss, s.env⟩ := Store.xrun_ofStep ss s
+
+/-- Histories that interleave `Op`s (all 33 constructors) with the three composites need no side
+    condition at all. -/
+theorem C04_reach_ext_ops (env : Env) (cs : List Forest.XCall)
+    (hcs : ∀ c ∈ cs, (∃ o, c = Forest.XCall.ofOp o) ∨ (∃ n, c = .createMissingPrefixes n) ∨
+      (∃ n, c = .deduplicateNamespaces n) ∨ (∃ n order, c = .cloneWithPrefixes n order)) :
+    ((⟨Forest.init, env⟩ : Store).xrun cs).forest.Inv := by
+  refine C04_reach_ext env cs (fun c hc => ?_)
+  rcases hcs c hc with ⟨o, rfl⟩ | ⟨n, rfl⟩ | ⟨n, rfl⟩ | ⟨n, order, rfl⟩
+  · exact C04_ext_ofOp_wellKinded o
+  all_goals trivial
+
+/-- Handles are never re-used along extended histories: for every extended call, all stores and all
+    arguments, WITHOUT any invariant or side condition, `next` does not decrease and every handle
+    afterwards is an old handle or a fresh one (`Forest.Le`) … -/
+theorem C04_step_le_ext (s : Store) (c : Forest.XCall) : Forest.Le s.forest (s.xstep c).forest :=
+  Forest.le_xcall s c
+
+/-- … hence a removed handle stays removed along every extended history. -/
+theorem C04_isRemoved_history_ext (s : Store) (cs : List Forest.XCall) (h : Nat)
+    (hr : s.forest.isRemoved h = true) : (s.xrun cs).forest.isRemoved h = true :=
+  Forest.isRemoved_mono (Store.le_xrun cs s) hr
+
+/-- Non-vacuity: a history from the empty store that creates `<a:e><a:e>x</a:e></a:e>` (name 1 in
+    namespace 3, no prefix for it), declares `p` twice (`namespaces_mut` insert), REPAIRS
+    (`create_missing_prefixes`: invents the prefix `n0`, interned as 3), DEDUPLICATES (the inner `p`, node
+    4, goes), CLONES WITH PREFIXES the inner element (the clone 7 gets `n0`; the order handed over is
+    the model's `inherited_prefixes`: the call is `faithful`), is refused a repair on a text node
+    (`NotElement`), hits the documented panic of `attributes_mut` on a text node, then MOVES the clone
+    in front of its source, strips whitespace, removes the source and deduplicates on the removed
+    handle.  Evaluated: the outcomes, the invariant at the end, the final handles, the extended tables. -/
+def xhEnv : Env :=
+  { namespaces := [[], ['x'], ['u'], ['w']], prefixes := [[], ['x','m','l'], ['p']],
+    names := [(['s'], 1), (['e'], 3)] }
+def xhCalls : List Forest.XCall :=
+  [.newNode (.element 1), .newNode (.element 1), .newNode (.text ['x']),
+   .call (.append 0 1), .call (.append 1 2),
+   .call (.mapInsert .namespaces 0 (.namespace 2 2)), .call (.mapInsert .namespaces 1 (.namespace 2 2)),
+   .createMissingPrefixes 0, .deduplicateNamespaces 0,
+   .cloneWithPrefixes 1 [(3, 3)],
+   .createMissingPrefixes 2, .call (.mapInsert .attributes 2 (.attribute 1 [])),
+   .call (.insertBefore 1 7), .removeInsignificantWhitespace 0, .call (.remove 1), .deduplicateNamespaces 1]
+def xhStore : Store := ⟨Forest.init, xhEnv⟩
+example : ∀ c ∈ xhCalls, c.wellKinded := by decide
+example : (xhStore.xrun xhCalls).forest.inv = true ∧
+    xhStore.xouts xhCalls = [.ok, .ok, .ok, .ok, .ok, .ok, .ok, .ok, .ok, .ok, .err .notElement, .panic,
+      .ok, .ok, .ok, .ok] ∧
+    (xhStore.xrun xhCalls).forest.allHandles = [0, 3, 5, 7, 9, 8] ∧
+    (xhStore.xrun xhCalls).forest.isRemoved 4 = true ∧ (xhStore.xrun xhCalls).forest.isRemoved 1 = true ∧
+    (xhStore.xrun xhCalls).env.prefixes = [[], ['x','m','l'], ['p'], ['n', '0']] := by decide +kernel
+example : (xhStore.xrun (xhCalls.take 9)).forest.inheritedPrefixes (xhStore.xrun (xhCalls.take 9)).env 1 = [(3, 3)] ∧
+    (xhStore.xrun (xhCalls.take 9)).forest.allHandles = [0, 3, 5, 1, 2] ∧
+    ((xhStore.xrun (xhCalls.take 10)).forest.get? 7).map (fun t => t.kids.map (·.value)) =
+      some [.namespace 3 3, .text ['x']] := by decide +kernel
+example : (Forest.XCall.cloneWithPrefixes 1 [(3, 3)]).faithful (xhStore.xrun (xhCalls.take 9)) := by
+  have h : (xhStore.xrun (xhCalls.take 9)).forest.inheritedPrefixes (xhStore.xrun (xhCalls.take 9)).env 1 =
+      [(3, 3)] := by decide +kernel
+  refine ⟨fun b => by rw [h], fun a ha b hb _ => ?_⟩
+  rw [List.mem_singleton] at ha hb
+  rw [ha, hb]
 
 end XotModel.Props
